@@ -82,8 +82,11 @@ def gen_cases(rng, tier):
                 q = rng.random()
                 ex = "ok" if q < 0.4 else (["raise", rng.randint(0, len(inner))] if q < 0.65 else ["failcommit", rng.randint(0, 2 + 3 * len(inner))])
                 ops.append(["batch", t, ex, inner])
-            else:
+            elif r < 0.96:
                 ops.append(["snap", t, rng.randrange(50), k])
+            else:
+                # a snapshot of the CURRENT root that is kept while the trie moves on, and is then written to
+                ops.append(["snapkeep", t, k, v or "61", rng.choice(keys).hex(), hexlib.gen_value(rng, values).hex() or "62"])
         yield {"ops": ops, "keys": [k.hex() for k in keys]}
 
 
@@ -241,6 +244,37 @@ def run_case(case):
                 out = hexlib.fmt_exc(e)
                 res.fail("snapshot-unreadable", "at_root(%s).get(%r) raised %r" % (r.hex()[:12], k, e))
             res.emit("hx.getat %s %s" % (hx(r), hx(k)), out)
+        elif kind == "snapkeep":
+            # at_root(current root) is an INDEPENDENT view: the trie moving on must not move it, a write through it must not
+            # move the trie (seeded change C04n-at-root-of-current-root-yields-self). The snapshot is a trie of its own in the
+            # model (`hx.open`), and stays available to the later operations of the history.
+            k, v, k2, v2 = (bytes.fromhex(x) for x in op[2:6])
+            r0 = trie.root_hash
+            m0 = dict(model)
+            try:
+                with trie.at_root(r0) as snap:
+                    res.emit("hx.open %s" % hx(r0), str(len(tries)))
+                    trie.set(k, v)
+                    model[k] = v
+                    res.emit("hx.set %d %s %s" % (t, hx(k), hx(v)), "ok")
+                    if snap.root_hash != r0:
+                        res.fail("snapshot-moved", "at_root(current root): the snapshot's root moved when the trie was written to")
+                    got = snap.get(k)
+                    res.emit("hx.get %d %s" % (len(tries), hx(k)), "v " + hx(got))
+                    if got != m0.get(k, b""):
+                        res.fail("snapshot-wrong-value", "at_root(current root).get(%r) = %r after the trie moved on; the root held %r" % (k, got, m0.get(k, b"")))
+                    r1 = trie.root_hash
+                    snap.set(k2, v2)
+                    m0[k2] = v2
+                    res.emit("hx.set %d %s %s" % (len(tries), hx(k2), hx(v2)), "ok")
+                    if trie.root_hash != r1:
+                        res.fail("snapshot-moved", "a write through an at_root snapshot moved the trie's own root")
+                tries.append(snap)
+                models.append(m0)
+                note(len(tries) - 1)
+            except Exception as e:  # noqa
+                failed = True
+                res.fail("snapshot-unreadable", "at_root(current root) / use of the snapshot raised %r" % (e,))
         # observations and oracle after the step
         res.emit("hx.db", hexlib.fmt_db(db))
         res.emit("hx.root %d" % t, hx(trie.root_hash))
